@@ -29,8 +29,37 @@ def _any_sym(xs) -> bool:
     return any(is_sym(x) for x in xs)
 
 
+class Conj(list):
+    """conjunction with quantified members: a list of goals (each proved on its own) / of assumptions (each assumed)"""
+
+    def __bool__(self):
+        return all(bool(x) for x in self)        # members raise unless they can be evaluated natively
+
+
+def _is_q(x):
+    return isinstance(x, (Forall, Exists, ForallKey, Sequent, Conj))
+
+
+def _symbolic_q(x):
+    """a quantified member that cannot be evaluated natively (symbolic bounds / bodies)"""
+    if isinstance(x, (Forall, Exists)):
+        return not (isinstance(x.lo, int) and isinstance(x.hi, int))
+    return _is_q(x)
+
+
 def And(*xs):
     xs = _flat(xs)
+    if any(_symbolic_q(x) for x in xs) or (any(_is_q(x) for x in xs) and _any_sym([x for x in xs if not _is_q(x)])):
+        plain = [x for x in xs if not _is_q(x)]
+        out = Conj()
+        if plain:
+            out.append(And(*plain))
+        for x in xs:
+            if isinstance(x, Conj):
+                out.extend(x)
+            elif _is_q(x):
+                out.append(x)
+        return out
     if _any_sym(xs):
         return z3.And(*[_b(x) for x in xs]) if xs else z3.BoolVal(True)
     return all(xs)
@@ -38,6 +67,20 @@ def And(*xs):
 
 def Or(*xs):
     xs = _flat(xs)
+    qs = [x for x in xs if _is_q(x)]
+    if qs and (any(_symbolic_q(x) for x in qs) or _any_sym([x for x in xs if not _is_q(x)])):
+        plain = [x for x in xs if not _is_q(x)]
+        if len(qs) != 1:
+            raise TypeError('disjunction of several quantified statements is outside the contract language')
+        q = qs[0]
+        if isinstance(q, Forall):
+            if q.arity == 2:
+                return Forall(q.lo, q.hi, lambda i, k, b=q.body: Or(*plain, b(i, k)), q.name, 2)
+            return Forall(q.lo, q.hi, lambda j, b=q.body: Or(*plain, b(j)), q.name)
+        if isinstance(q, Exists):
+            # as a goal: from the negated other disjuncts, find a witness
+            return Sequent([Not(p) for p in plain], q) if plain else q
+        raise TypeError(f'{type(q).__name__} inside a disjunction is outside the contract language')
     if _any_sym(xs):
         return z3.Or(*[_b(x) for x in xs]) if xs else z3.BoolVal(False)
     return any(xs)
@@ -52,12 +95,29 @@ def Not(x):
 
 
 def Implies(a, b):
+    if _is_q(a) and _symbolic_q(a):
+        raise TypeError('a quantified premise is outside the contract language (state it as a local hypothesis of a Sequent)')
+    if _is_q(b) and (_symbolic_q(b) or is_sym(a)):
+        if isinstance(b, Forall):
+            if b.arity == 2:
+                return Forall(b.lo, b.hi, lambda i, k, bb=b.body: Implies(a, bb(i, k)), b.name, 2)
+            return Forall(b.lo, b.hi, lambda j, bb=b.body: Implies(a, bb(j)), b.name)
+        if isinstance(b, ForallKey):
+            return ForallKey(lambda k, bb=b.body: Implies(a, bb(k)), b.name)
+        if isinstance(b, Exists):
+            return Sequent([a], b)
+        if isinstance(b, Conj):
+            return Conj([Implies(a, x) for x in b])
+        if isinstance(b, Sequent):
+            return Sequent([a] + list(b.hyps), b.goal, b.isolate)
     if is_sym(a) or is_sym(b):
         return z3.Implies(_b(a), _b(b))
     return (not a) or bool(b)
 
 
 def Iff(a, b):
+    if (_is_q(a) and _symbolic_q(a)) or (_is_q(b) and _symbolic_q(b)):
+        raise TypeError('equivalence with a quantified side is outside the contract language (state the two implications)')
     if is_sym(a) or is_sym(b):
         return _b(a) == _b(b)
     return bool(a) == bool(b)
@@ -140,6 +200,13 @@ class Forall:
             return all(bool(self.body(i, k)) for i in range(int(self.lo), int(self.hi)) for k in range(i, int(self.hi)))
         return all(bool(self.body(j)) for j in range(int(self.lo), int(self.hi)))
 
+    def __bool__(self):
+        """truth value: only in native (run-time) use with concrete bounds.  A quantifier object nested inside a connective of a
+        symbolic formula would silently count as True -- that is a contract error, never a proof."""
+        if isinstance(self.lo, int) and isinstance(self.hi, int):
+            return self.native()
+        raise TypeError(f'{type(self).__name__} nested inside a connective / used as a truth value: state it as a goal of its own (Sequent)')
+
     def inst(self, t, u=None):
         if self.arity == 2:
             return z3.Implies(z3.And(lift(self.lo) <= t, t <= u, u < lift(self.hi)), _b(self.body(t, u)))
@@ -159,6 +226,9 @@ class ForallKey:
     def inst(self, k):
         return _b(self.body(k))
 
+    def __bool__(self):
+        raise TypeError('ForallKey nested inside a connective / used as a truth value: state it as a goal of its own')
+
 
 class Sequent:
     """goal with obligation-local extra hypotheses (`reveal` of opaque definitions, instances of proved lemmas)"""
@@ -167,6 +237,9 @@ class Sequent:
         """isolate=True: the goal is proved from the local hypotheses *only* (keeps hard string goals small); every
         local hypothesis that is not a LemmaInst is itself proved from the full path hypotheses as `<name>.cut<k>`."""
         self.hyps, self.goal, self.isolate = list(hyps), goal, isolate
+
+    def __bool__(self):
+        raise TypeError('Sequent used as a truth value / nested inside a connective')
 
 
 class LemmaInst:
@@ -185,6 +258,13 @@ class Exists:
 
     def native(self) -> bool:
         return any(bool(self.body(j)) for j in range(int(self.lo), int(self.hi)))
+
+    def __bool__(self):
+        """truth value: only in native (run-time) use with concrete bounds.  A quantifier object nested inside a connective of a
+        symbolic formula would silently count as True -- that is a contract error, never a proof."""
+        if isinstance(self.lo, int) and isinstance(self.hi, int):
+            return self.native()
+        raise TypeError(f'{type(self).__name__} nested inside a connective / used as a truth value: state it as a goal of its own (Sequent)')
 
     def at(self, t):
         return z3.And(lift(self.lo) <= t, t < lift(self.hi), _b(self.body(t)))
